@@ -3,6 +3,7 @@ import re
 from engine import rule, Ob, key_of, EXPLAIN, ASSUME
 from sym import Lin, add, sub, const, tag, show, is_const, as_lin
 from util import *
+from facts import AnchorError
 from order import Order, term_eq
 
 EXPLAIN["C15"] = (
@@ -157,3 +158,43 @@ def r5(ctx):
         CAP = next((e["result"] for e in res.log if e["kind"] == "call" and e["callee"].endswith("Allocator::capacity")), None)
         ok = len(sl) == 1 and specs[name](sl[0]["args"][0], sl[0]["args"][1], DO, CAP)
         yield Ob(key_of("C15-R5", b.path, "slice"), ok, "%s() slice terms: %s" % (name, [short(a, 90) for a in sl[0]["args"]] if sl else None), b.loc())
+
+
+@rule("C15-R6", "C15", 8, "get_<ty>_varint(offset): a value that does not end below allocated() is reported as OutOfBounds - the decoder's `Underflow` (the window, "
+      "cut at allocated() by R4, ended before the value did) is turned into Error::OutOfBounds, not passed on as a decoding error")
+def r6(ctx):
+    enum = ctx.facts.ext_enums.get("dbutils::leb128::DecodeVarintError")
+    under = [int(v["discr"]) for v in (enum["variants"] if enum else []) if v["name"] == "Underflow"]
+    if len(under) != 1:
+        raise AnchorError("the decoder's error enum (dbutils::leb128::DecodeVarintError) has no Underflow variant in the facts")
+    U = under[0]
+    for name, b in readers(ctx, r"get_[ui](?:16|32|64|128)_varint"):
+        ev, res = ctx.eval(b)
+        dec = [x for x in res.log if x["kind"] == "call" and re.search(r"leb128::decode_\w+_varint$", x["callee"])]
+        if len(dec) != 1:
+            yield Ob(key_of("C15-R6", b.path, "underflow-is-out-of-bounds"), False, "expected one decoder call", b.loc())
+            continue
+        err = ("payload", dec[0]["result"], "Err", 0)
+        # error values built on the decoder's Err path, with what is known about the decoder's error at that point
+        good = False
+        passed_on = False
+        for e in res.log:
+            if e["kind"] != "ret0" or not e["chain"]:
+                continue
+            ds = [f for f in ctx.facts_of(ev, e) if f[0] == "discr" and f[1] == err]
+            if not ds:
+                continue
+            is_under = any(f[2] == ("eq", U) for f in ds)
+            not_under = any(f[2][0] == "ne" and U in (f[2][1] if isinstance(f[2][1], tuple) else (f[2][1],)) for f in ds) or any(f[2][0] == "eq" and f[2][1] != U for f in ds)
+            v = e["value"]
+            if is_under:
+                good = good or (tag(v) == "variant" and v[2] == "OutOfBounds")
+                passed_on = passed_on or mentions(v, err)
+            elif not not_under and mentions(v, err):
+                passed_on = True
+        if not good and not passed_on:
+            # no case analysis on the decoder's error at all: it is converted as it is
+            passed_on = True
+        yield Ob(key_of("C15-R6", b.path, "underflow-is-out-of-bounds"), good and not passed_on,
+                 "%s: %s" % (name, "the Underflow arm builds Error::OutOfBounds" if good and not passed_on else
+                             "the decoder's Underflow reaches the caller as Error::DecodeVarintError: get_*_varint at allocated() - 1 on a byte with the continuation bit is not OutOfBounds"), ctx.loc(dec[0]))
